@@ -19,6 +19,9 @@ DT = ["IsoDateString", "IsoTimeString", "IsoDatetimeString"]
 
 def grammar(rng, n):
     out = list(gen.PSEUDO) + list(gen.PLAIN)
+    # magnitudes: integers beyond the float range, floats that overflow / underflow, long fractions
+    out += ["9" * 310, "-" + "9" * 320, "1" + "0" * 400, "1e400", "-1e999", "1e-400", "0." + "0" * 330 + "1",
+            "1" * 25, "0" * 30, "123456789012345678901234567890.5", "4" * 4299]
     signs = ["", "+", "-"]
     for _ in range(n):
         r = rng.random()
@@ -89,17 +92,35 @@ def eq_value(a, b):
     return a == b
 
 
+def accepts_safe(c, s):
+    """True / False as the parser says; None when it raises something other than ValueError"""
+    try:
+        return conv.accepts(c, s)
+    except Exception:  # noqa
+        return None
+
+
 def check_string(registry, s):
     """first-match soundness + render/re-parse round trip, directly on the real classes"""
     from json_to_models.generator import MetadataGenerator
-    t = MetadataGenerator(registry)._detect_type(s)
-    accepted = [c for c in registry.types if conv.accepts(c, s)]
-    expect = accepted[0] if accepted else None
+    try:
+        t = MetadataGenerator(registry)._detect_type(s)
+    except Exception as e:  # noqa — a parser that raises anything but ValueError aborts the whole generation
+        return {"kind": "detection-raises", "string": s[:60] + ("..." if len(s) > 60 else ""), "length": len(s),
+                "full_string": s, "registry": [c.__name__ for c in registry.types],
+                "observed": f"{type(e).__name__}: {str(e)[:200]}"}
+    expect = None
+    for c in registry.types:          # registration order, stopping at the first acceptance as the property says
+        if accepts_safe(c, s):
+            expect = c
+            break
     got = t if isinstance(t, type) else None
     if got is not expect:
         return {"kind": "first-match", "string": s, "registry": [c.__name__ for c in registry.types],
                 "observed": f"classified as {t!r}, first accepting parser is {expect!r}"}
-    for c in accepted:
+    for c in registry.types:
+        if not accepts_safe(c, s):
+            continue
         v = c.to_internal_value(s)
         r = v.to_representation()
         try:
@@ -119,9 +140,21 @@ def check_resolve(registry, kinds, pool):
         u = next(iter(res))
         for c in classes:
             for s in pool:
-                if conv.accepts(c, s) and not conv.accepts(u, s):
+                if accepts_safe(c, s) and accepts_safe(u, s) is False:
                     return {"kind": "resolve-unsound", "kinds": list(kinds), "registry": [c.__name__ for c in registry.types],
                             "observed": f"resolved to {u.__name__} which rejects {s!r} accepted by {c.__name__}"}
+    return None
+
+
+def check_replaces(registry, pool):
+    """the registry's own `replaces` pairs must be sound: what the particular type accepts the general one accepts"""
+    for a, b in registry.replaces:
+        for s in pool:
+            if accepts_safe(a, s) and accepts_safe(b, s) is False:
+                return {"kind": "replaces-unsound", "registry": [c.__name__ for c in registry.types],
+                        "kinds": [a.__name__, b.__name__],
+                        "observed": f"{a.__name__} is registered as a particular case of {b.__name__}, which rejects {s[:40]!r}... "
+                                    f"(length {len(s)}) accepted by {a.__name__}"}
     return None
 
 
@@ -147,7 +180,7 @@ def check_field(registry, vals):
         return {"kind": "disabled-kind-appears", "values": vals, "registry": sorted(names), "observed": enc}
     if isinstance(t, type) and t is not str and t.__name__ in conv.SER_CLASSES:
         for v in vals:
-            if not conv.accepts(t, v):
+            if accepts_safe(t, v) is False:
                 return {"kind": "field-type-rejects-sample", "values": vals, "registry": [c.__name__ for c in registry.types],
                         "observed": f"field typed {t.__name__} but it rejects {v!r}"}
     return None
@@ -156,24 +189,42 @@ def check_field(registry, vals):
 def falsify(ctx):
     rng = ctx.rng("fals")
     strings = grammar(rng, ctx.n(600, 12000))
-    pool = strings[:400]
+    pool = strings[:460]
     for kinds, dt in registries(rng, ctx.n(6, 19)):
         registry = stages.make_registry(kinds, datetime=dt)
-        for s in rng.sample(strings, k=min(len(strings), ctx.n(250, 3000))):
-            hit = check_string(registry, s)
-            ctx.case((s, kinds, dt), nontrivial=any(conv.accepts(c, s) for c in registry.types))
+        for s in rng.sample(strings, k=min(len(strings), ctx.n(250, 3000))) + strings[len(gen.PSEUDO) + len(gen.PLAIN):][:11]:
+            try:
+                hit = check_string(registry, s)
+            except Exception as e:  # noqa — a parser must reject with ValueError; anything else aborts the whole generation
+                hit = {"kind": "parser-raises-instead-of-rejecting", "string": s[:60] + ("..." if len(s) > 60 else ""),
+                       "length": len(s), "registry": [c.__name__ for c in registry.types],
+                       "observed": f"{type(e).__name__}: {str(e)[:200]}"}
+            ctx.case((s, kinds, dt), nontrivial=any(accepts_safe(c, s) for c in registry.types))
             if hit:
                 yield hit
+        try:
+            hit = check_replaces(registry, strings)
+        except Exception as e:  # noqa
+            hit = None
+        ctx.case(("replaces", kinds, dt))
+        if hit:
+            yield hit
         names = [c.__name__ for c in registry.types]
         for k in range(2, len(names) + 1):
             for sub in itertools.permutations(names, k):
-                hit = check_resolve(registry, sub, pool)
+                try:
+                    hit = check_resolve(registry, sub, pool)
+                except Exception:  # noqa — reported by the per-string check above
+                    hit = None
                 ctx.case(("resolve", sub, kinds, dt))
                 if hit:
                     yield hit
         for _ in range(ctx.n(40, 600)):
             vals = [rng.choice(strings) for _ in range(rng.randint(1, 4))]
-            hit = check_field(registry, vals)
+            try:
+                hit = check_field(registry, vals)
+            except Exception:  # noqa — reported by the per-string check above
+                hit = None
             ctx.case(("field", tuple(vals), kinds, dt))
             if hit:
                 yield hit
@@ -185,6 +236,10 @@ def replay(ctx, hit):
                                     datetime=any(k in DT for k in hit.get("registry", [])))
     if hit["kind"] in ("first-match", "roundtrip"):
         return check_string(registry, hit["string"])
+    if hit["kind"] == "detection-raises":
+        return check_string(registry, hit["full_string"])
     if hit["kind"] == "resolve-unsound":
-        return check_resolve(registry, hit["kinds"], gen.PSEUDO + gen.PLAIN)
+        return check_resolve(registry, hit["kinds"], grammar(ctx.rng("replay"), 10))
+    if hit["kind"] == "replaces-unsound":
+        return check_replaces(registry, grammar(ctx.rng("replay"), 10))
     return check_field(registry, hit["values"])
